@@ -1,3 +1,5 @@
+//go:build c09
+
 package checks
 
 import (
@@ -73,6 +75,9 @@ type c09Setup struct {
 
 func c09Data() map[string]any { return catData(nil)("CANARY") }
 
+// tdata: every thread renders with its own data (its own canary), so that cross-talk is visible
+func tdata(i int) map[string]any { return catData(nil)(fmt.Sprintf("CANARY_T%d", i)) }
+
 func c09Files() Files {
 	f := Files{}
 	for k, v := range CatalogFiles {
@@ -96,17 +101,33 @@ func c09Build(driver string, threads int) [][]c09Call {
 		}}
 	}
 	out := make([][]c09Call, threads)
+	defer func() {
+		// name the calls per thread and give each thread its own data
+		for ti := range out {
+			ti := ti
+			for ci := range out[ti] {
+				if out[ti][ci].name == "EDIT" {
+					continue
+				}
+				inner := out[ti][ci].run
+				out[ti][ci].name = fmt.Sprintf("%s@t%d", out[ti][ci].name, ti)
+				out[ti][ci].run = func() (string, error) { return inner() }
+			}
+		}
+	}()
 	switch driver {
 	case "H1-cold-cache-same-file":
 		t := vuego.NewFS(files.FS(), vuego.WithComponents())
 		for i := range out {
-			out[i] = []c09Call{mk("incl", func(b *bytes.Buffer) error { return t.Load("p_incl.vuego").Fill(c09Data()).Render(bg, b) })}
+			i := i
+			out[i] = []c09Call{mk("incl", func(b *bytes.Buffer) error { return t.Load("p_incl.vuego").Fill(tdata(i)).Render(bg, b) })}
 		}
 	case "H2-shared-caller-map":
 		v := vuego.NewVue(files.FS())
 		t := vuego.NewFS(files.FS())
 		shared := c09Data()
 		for i := range out {
+			i := i
 			if i%2 == 0 {
 				out[i] = []c09Call{mk("vue-fm", func(b *bytes.Buffer) error { return v.Render(b, "p_fm.vuego", shared) })}
 			} else {
@@ -119,30 +140,34 @@ func c09Build(driver string, threads int) [][]c09Call {
 		var warm bytes.Buffer
 		_ = v.Render(&warm, "p_once.vuego", c09Data())
 		for i := range out {
-			out[i] = []c09Call{mk("once", func(b *bytes.Buffer) error { return v.Render(b, "p_once.vuego", c09Data()) })}
+			i := i
+			out[i] = []c09Call{mk("once", func(b *bytes.Buffer) error { return v.Render(b, "p_once.vuego", tdata(i)) })}
 		}
 	case "H4-unseen-paths-and-expressions":
 		t := vuego.NewFS(files.FS())
 		pages := []string{"h4_a.vuego", "h4_b.vuego", "h4_c.vuego"}
 		for i := range out {
+			i := i
 			p := pages[i%3]
-			out[i] = []c09Call{mk("paths-"+p, func(b *bytes.Buffer) error { return t.Load(p).Fill(c09Data()).Render(bg, b) })}
+			out[i] = []c09Call{mk("paths-"+p, func(b *bytes.Buffer) error { return t.Load(p).Fill(tdata(i)).Render(bg, b) })}
 		}
 	case "H4b-path-cache-at-limit":
 		t := vuego.NewFS(files.FS())
 		pages := []string{"h4_a.vuego", "h4_b.vuego", "h4_c.vuego"}
 		for i := range out {
+			i := i
 			p := pages[i%3]
-			out[i] = []c09Call{mk("paths-"+p, func(b *bytes.Buffer) error { return t.Load(p).Fill(c09Data()).Render(bg, b) })}
+			out[i] = []c09Call{mk("paths-"+p, func(b *bytes.Buffer) error { return t.Load(p).Fill(tdata(i)).Render(bg, b) })}
 		}
 	case "H5-include-slots-layout-filters":
 		t := vuego.NewFS(files.FS(), vuego.WithComponents())
 		progs := []string{"p_layout.vuego", "p_slots.vuego", "p_filters.vuego", "p_short.vuego"}
 		for i := range out {
+			i := i
 			p := progs[i%len(progs)]
 			q := progs[(i+1)%len(progs)]
-			out[i] = []c09Call{mk(p, func(b *bytes.Buffer) error { return t.Load(p).Fill(c09Data()).Render(bg, b) }),
-				mk(q, func(b *bytes.Buffer) error { return t.Load(q).Fill(c09Data()).Render(bg, b) })}
+			out[i] = []c09Call{mk(p, func(b *bytes.Buffer) error { return t.Load(p).Fill(tdata(i)).Render(bg, b) }),
+				mk(q, func(b *bytes.Buffer) error { return t.Load(q).Fill(tdata(i)).Render(bg, b) })}
 		}
 	case "H6-files-edited-underneath":
 		old := files.FS()
@@ -155,26 +180,48 @@ func c09Build(driver string, threads int) [][]c09Call {
 		var warm bytes.Buffer
 		_ = t.Load("h6_page.vuego").Fill(c09Data()).Render(bg, &warm)
 		for i := range out {
+			i := i
 			if i == len(out)-1 {
 				out[i] = []c09Call{{name: "EDIT", run: func() (string, error) { sw.flip(); return "", nil }}}
 			} else {
-				out[i] = []c09Call{mk("incl-edited", func(b *bytes.Buffer) error { return t.Load("h6_page.vuego").Fill(c09Data()).Render(bg, b) })}
+				out[i] = []c09Call{mk("incl-edited", func(b *bytes.Buffer) error { return t.Load("h6_page.vuego").Fill(tdata(i)).Render(bg, b) })}
 			}
 		}
 	case "H7-renderstring-on-new":
 		t := vuego.NewFS(files.FS()).Fill(c09Data())
 		src := `<ul><li v-for="(i, it) in items" :class="{odd: i}">{{ it | upper }} {{ user.name }}</li></ul><p v-if="n > 2" v-once>{{ title }}</p>`
 		for i := range out {
+			i := i
 			out[i] = []c09Call{mk("string", func(b *bytes.Buffer) error { return t.New().RenderString(bg, b, src) })}
 		}
 	case "H8-funcs-and-errors":
 		t := vuego.NewFS(files.FS(), vuego.WithFuncs(vuego.FuncMap{"twice": func(s string) string { return s + s }}))
 		for i := range out {
+			i := i
 			if i%2 == 0 {
-				out[i] = []c09Call{mk("bad", func(b *bytes.Buffer) error { return t.Load("p_badlate.vuego").Fill(c09Data()).Render(bg, b) })}
+				out[i] = []c09Call{mk("bad", func(b *bytes.Buffer) error { return t.Load("p_badlate.vuego").Fill(tdata(i)).Render(bg, b) })}
 			} else {
-				out[i] = []c09Call{mk("func", func(b *bytes.Buffer) error { return t.New().Fill(c09Data()).RenderString(bg, b, `<p>{{ color | twice }}</p>`) })}
+				out[i] = []c09Call{mk("func", func(b *bytes.Buffer) error {
+					return t.New().Fill(tdata(i)).RenderString(bg, b, `<p>{{ color | twice }}</p>`)
+				})}
 			}
+		}
+	case "H9-components-with-v-once-and-wrappers":
+		t := vuego.NewFS(files.FS(), vuego.WithComponents())
+		progs := []string{"p_inconce.vuego", "p_wrap.vuego", "p_incfor.vuego", "p_scoped.vuego"}
+		for i := range out {
+			i := i
+			p := progs[i%len(progs)]
+			q := progs[(i+1)%len(progs)]
+			out[i] = []c09Call{mk(p, func(b *bytes.Buffer) error { return t.Load(p).Fill(tdata(i)).Render(bg, b) }),
+				mk(q, func(b *bytes.Buffer) error { return t.Load(q).Fill(tdata(i)).Render(bg, b) })}
+		}
+	case "H10-same-page-different-data":
+		t := vuego.NewFS(files.FS(), vuego.WithComponents())
+		for i := range out {
+			i := i
+			out[i] = []c09Call{mk("wrap", func(b *bytes.Buffer) error { return t.Load("p_wrap.vuego").Fill(tdata(i)).Render(bg, b) }),
+				mk("inconce", func(b *bytes.Buffer) error { return t.Load("p_inconce.vuego").Fill(tdata(i)).Render(bg, b) })}
 		}
 	default:
 		panic("unknown driver " + driver)
@@ -182,7 +229,7 @@ func c09Build(driver string, threads int) [][]c09Call {
 	return out
 }
 
-var c09Drivers = []string{"H1-cold-cache-same-file", "H2-shared-caller-map", "H3-v-once-warm", "H4-unseen-paths-and-expressions", "H4b-path-cache-at-limit", "H5-include-slots-layout-filters", "H6-files-edited-underneath", "H7-renderstring-on-new", "H8-funcs-and-errors"}
+var c09Drivers = []string{"H1-cold-cache-same-file", "H2-shared-caller-map", "H3-v-once-warm", "H4-unseen-paths-and-expressions", "H4b-path-cache-at-limit", "H5-include-slots-layout-filters", "H6-files-edited-underneath", "H7-renderstring-on-new", "H8-funcs-and-errors", "H9-components-with-v-once-and-wrappers", "H10-same-page-different-data"}
 
 // c09Reset puts every piece of process-global state the engine has into its initial state.
 func c09Reset(driver string) {
@@ -219,9 +266,11 @@ func c09Solo(driver string, threads int) map[string]map[string]bool {
 				if compNew {
 					fsys["c_card.vuego"] = &fstest.MapFile{Data: []byte(c09EditedComp), ModTime: later}
 				}
-				var buf bytes.Buffer
-				err := vuego.NewFS(fsys).Load("h6_page.vuego").Fill(c09Data()).Render(bg, &buf)
-				add("incl-edited", res(buf.String(), err))
+				for ti := 0; ti < threads-1; ti++ {
+					var buf bytes.Buffer
+					err := vuego.NewFS(fsys).Load("h6_page.vuego").Fill(tdata(ti)).Render(bg, &buf)
+					add(fmt.Sprintf("incl-edited@t%d", ti), res(buf.String(), err))
+				}
 			}
 		}
 		return acc
@@ -534,7 +583,7 @@ func init() {
 		WorkerEnv: func(runDir string) []string {
 			return []string{"GORACE=log_path=" + runDir + "/race halt_on_error=0 exitcode=0 history_size=2", "VERIF_RACE_LOG=" + runDir + "/race"}
 		},
-		Rule: "9 drivers (cold cache on the same file; shared caller map through Vue.Render and Load().Fill; v-once with a warm cache; previously unseen paths and expressions, also with the global path cache two entries below its limit; include+slots+layout+filters+shorthand; page and component edited underneath by an editor thread; RenderString on New(); registered functions and failing renders), each with 2 (thorough: also 3) real goroutines on one shared engine. " +
+		Rule: "11 drivers (cold cache on the same file; shared caller map through Vue.Render and Load().Fill; v-once with a warm cache; previously unseen paths and expressions, also with the global path cache two entries below its limit; include+slots+layout+filters+shorthand; page and component edited underneath by an editor thread; RenderString on New(); registered functions and failing renders), each with 2 (thorough: also 3) real goroutines on one shared engine. " +
 			"Every schedule with at most b preemptions is executed under a controlled scheduler that owns every Lock/RLock/Unlock/Pool/Once operation of the vuego module (and file-system opens in the edit driver); per schedule: every call's bytes and error equal one of its solo results, runtime.RaceErrors() did not increase (race detector in the loop, hand-offs invisible to it), no deadlock, no panic. One recorded schedule per driver is replayed and must reproduce exactly. A free-running -race pass of the same bodies complements it. states = schedules executed, transitions = scheduling points; non-trivial = all",
 		Bounds:      map[string]string{"quick": "2 threads, preemption bound 2", "thorough": "2 threads bound 3; 3 threads bound 2"},
 		Assumptions: []string{"sequentially consistent interleavings at synchronisation operations; unsynchronised accesses are caught by the race detector on each explored schedule instead", "cmd/vinstr rewrites every use of package sync in the vuego module (5 files today); other blocking primitives (channels, atomics) are not used by the module"},
